@@ -53,6 +53,13 @@ def gen_case(rng, cid):
     # an earlier one (`use P::T; use Q::T; use P::T;` binds T to P::T)
     if len(uses) >= 2 and rng.random() < 0.35:
         uses.append(list(rng.choice(uses[:-1])))
+    # the same, made on purpose: a name defined in two other modules, imported P::T, Q::T, P::T
+    if rng.random() < 0.25:
+        trip = [(t_, q1, q2) for t_ in NAMES for q1 in others for q2 in others if q1 != q2
+                and all(any(d_[2] == t_ for d_ in dl) for (pp, dl, _) in mods if pp in (q1, q2))]
+        if trip:
+            t_, q1, q2 = rng.choice(trip)
+            uses += [path(*(q1 + [t_])), path(*(q2 + [t_])), path(*(q1 + [t_]))]
     flds = []
     dd = {tuple(pp): {d[2]: d for d in dl} for (pp, dl, _) in mods}
     ulist = [list(u[1:]) for u in uses]
